@@ -352,11 +352,12 @@ func genLegacy(r *Rand) WExt {
 	return WExt{Form: 3, Profile: prof, Words: r.Bytes(4 * r.Pick(0, 1, 2, 3, 64, r.Intn(20)))}
 }
 
-// genExt draws a block description of the given form.
-func genExt(r *Rand, form int, maxElems int) WExt {
+// genExt draws a block description of the given form; one-byte blocks contain a reserved id 15
+// with probability 1/8 when reservedOK (the known-finding region of c03.wire).
+func genExt(r *Rand, form int, maxElems int, reservedOK bool) WExt {
 	switch form {
 	case 1:
-		return WExt{Form: 1, Items: genItems1(r, maxElems, r.Chance(2, 3), r.Chance(1, 8))}
+		return WExt{Form: 1, Items: genItems1(r, maxElems, r.Chance(2, 3), reservedOK && r.Chance(1, 8))}
 	case 2:
 		return WExt{Form: 2, Items: genItems2(r, maxElems, r.Chance(2, 3))}
 	case 3:
@@ -392,11 +393,12 @@ func genFiller(r *Rand, n int) []byte {
 	return r.Bytes(n)
 }
 
-// genWire draws a well-formed wire description (possibly with a reserved id, possibly canonical).
-func genWire(r *Rand, maxPayload int) *WireDesc {
+// genWire draws a well-formed wire description (possibly canonical; with a reserved id only when
+// reservedOK).
+func genWire(r *Rand, maxPayload int, reservedOK bool) *WireDesc {
 	w := &WireDesc{}
 	genWireFixed(r, w)
-	w.Ext = genExt(r, r.Pick(0, 1, 1, 1, 2, 2, 3), 6)
+	w.Ext = genExt(r, r.Pick(0, 1, 1, 1, 2, 2, 3), 6, reservedOK)
 	w.Payload = r.Bytes(r.Size(maxPayload, 1, 2, 255, 256))
 	if r.Chance(1, 3) {
 		w.Payload = nil
@@ -468,7 +470,10 @@ func gridItems(form int, d func(n int) []byte) [][]WItem {
 			{p, elem(7, d(2)), p, elem(8, d(2)), p},
 			{elem(1, d(1)), elem(2, d(2)), elem(3, d(3)), elem(4, d(4)), elem(5, d(5)), elem(6, d(6)), elem(7, d(7)), elem(8, d(8)),
 				elem(9, d(9)), elem(10, d(10)), elem(11, d(11)), elem(12, d(12)), elem(13, d(13)), elem(14, d(14))},
-			// reserved id 15 (known finding region)
+		}
+	}
+	if form == -1 { // reserved id 15 (known-finding region of c03.wire)
+		return [][]WItem{
 			{elem(15, d(1))},
 			{elem(1, d(1)), elem(15, d(1)), elem(2, d(5))},
 			{p, elem(15, d(3))},
@@ -491,7 +496,18 @@ func gridItems(form int, d func(n int) []byte) [][]WItem {
 	}
 }
 
-// gridExts lists boundary block descriptions of every form.
+// gridReserved lists the boundary layouts with a reserved id.
+func gridReserved(d func(n int) []byte) []WExt {
+	var out []WExt
+	for _, items := range gridItems(-1, d) {
+		out = append(out, WExt{Form: 1, Items: items})
+	}
+	return out
+}
+
+var nGridReserved = len(gridReserved(func(n int) []byte { return make([]byte, n) }))
+
+// gridExts lists boundary block descriptions of every form (no reserved id).
 func gridExts(d func(n int) []byte) []WExt {
 	var out []WExt
 	out = append(out, WExt{})
@@ -514,13 +530,17 @@ var nGridExts = len(gridExts(func(n int) []byte { return make([]byte, n) }))
 // the image number only, so that every worker and every replay sees the same images).
 func baseImage(seed uint64, j int) []byte {
 	r := newRand(seed, "c03.mut#base", j)
-	if j < nGridExts {
+	if j < nGridExts+nGridReserved {
 		w := &WireDesc{}
 		genWireFixed(r, w)
 		if len(w.CSRC) > 2 {
 			w.CSRC = w.CSRC[:2]
 		}
-		w.Ext = gridExts(func(n int) []byte { return r.Bytes(n) })[j]
+		if j < nGridExts {
+			w.Ext = gridExts(func(n int) []byte { return r.Bytes(n) })[j]
+		} else {
+			w.Ext = gridReserved(func(n int) []byte { return r.Bytes(n) })[j-nGridExts]
+		}
 		if w.Ext.Form == 3 && len(w.Ext.Words) > 16 {
 			w.Ext.Words = w.Ext.Words[:8]
 		}
@@ -536,7 +556,7 @@ func baseImage(seed uint64, j int) []byte {
 		}
 		return encodeWire(w)
 	}
-	w := genWire(r, 12)
+	w := genWire(r, 12, true)
 	if len(w.Filler) > 6 {
 		w.Filler = w.Filler[:6]
 	}
@@ -669,22 +689,59 @@ func init() {
 				}
 			}
 		}
-		maxPl := 600
-		if x.Thorough() {
-			maxPl = 20000
-		}
-		for i, n := 0, x.N(12000, 1500000); i < n; i++ {
-			emit(func(c *Case) *WireDesc { return genWire(c.R, maxPl) })
+		for i, n := 0, x.N(12000, 600000); i < n; i++ {
+			emit(func(c *Case) *WireDesc {
+				maxPl := 600
+				if x.Thorough() && c.R.Chance(1, 200) {
+					maxPl = 20000
+				}
+				return genWire(c.R, maxPl, false)
+			})
 		}
 		// large blocks: many elements, up to the 16-bit word count in the thorough tier
 		for i, n := 0, x.N(200, 4000); i < n; i++ {
 			emit(func(c *Case) *WireDesc {
-				w := genWire(c.R, 40)
+				w := genWire(c.R, 40, false)
 				big := 60
 				if x.Thorough() && c.R.Chance(1, 20) {
 					big = 1000
 				}
-				w.Ext = genExt(c.R, c.R.Pick(1, 2), big)
+				w.Ext = genExt(c.R, c.R.Pick(1, 2), big, false)
+				return w
+			})
+		}
+		// The known-finding region (one-byte block with the reserved id 15) comes LAST and in a fixed,
+		// small number (< 150 in every tier): the engine keeps only the first 64 non-OK lines per
+		// worker and the 200 shortest overall, so a large number of known-finding instances would
+		// crowd genuine failures out of the list `check` looks at.
+		for gi := 0; gi < nGridReserved; gi++ {
+			for _, ncsrc := range []int{0, 15} {
+				for _, pl := range []int{0, 5} {
+					for _, padded := range []bool{false, true} {
+						gi, ncsrc, pl, padded := gi, ncsrc, pl, padded
+						emit(func(c *Case) *WireDesc {
+							w := &WireDesc{}
+							genWireFixed(c.R, w)
+							w.CSRC = make([]uint32, ncsrc)
+							for i := range w.CSRC {
+								w.CSRC[i] = uint32(c.R.U64())
+							}
+							w.Ext = gridReserved(func(n int) []byte { return c.R.Bytes(n) })[gi]
+							w.Payload = c.R.Bytes(pl)
+							if padded {
+								w.HasPad = true
+								w.Filler = c.R.Bytes(3)
+							}
+							return w
+						})
+					}
+				}
+			}
+		}
+		for i := 0; i < 60; i++ {
+			emit(func(c *Case) *WireDesc {
+				w := genWire(c.R, 40, false)
+				w.Ext = WExt{Form: 1, Items: genItems1(c.R, 6, c.R.Chance(2, 3), true)}
 				return w
 			})
 		}
@@ -704,7 +761,7 @@ func init() {
 			})
 		}
 		// every single-bit mutation (and the unmutated image) of the base images
-		nBase := nGridExts + x.N(60, 3000)
+		nBase := nGridExts + nGridReserved + x.N(60, 1500)
 		for j := 0; j < nBase; j++ {
 			img := baseImage(x.Seed, j)
 			emit(func(c *Case) []byte { return img })
@@ -723,7 +780,7 @@ func init() {
 			}
 		}
 		// random byte strings over the parser's own alphabet, and uniformly random ones
-		for i, n := 0, x.N(20000, 2000000); i < n; i++ {
+		for i, n := 0, x.N(20000, 1000000); i < n; i++ {
 			emit(func(c *Case) []byte {
 				if c.R.Chance(1, 5) {
 					return c.R.Bytes(c.R.Size(80, 11, 12, 16, 20))
@@ -732,9 +789,9 @@ func init() {
 			})
 		}
 		// two-bit mutations of random well-formed images
-		for i, n := 0, x.N(10000, 1000000); i < n; i++ {
+		for i, n := 0, x.N(10000, 500000); i < n; i++ {
 			emit(func(c *Case) []byte {
-				img := encodeWire(genWire(c.R, 16))
+				img := encodeWire(genWire(c.R, 16, true))
 				for k := c.R.Pick(1, 2, 2, 3); k > 0; k-- {
 					b := c.R.Intn(8 * len(img))
 					img[b/8] ^= 1 << uint(b%8)
@@ -747,11 +804,16 @@ func init() {
 	register("c03.view", "C03", func(x *Ctx) {
 		formName := []string{"", "onebyte", "twobyte", "raw"}
 		// grid: every boundary block through the view of its own form and through the two others
-		for gi := 1; gi < nGridExts; gi++ {
+		for gi := 1; gi < nGridExts+nGridReserved; gi++ {
 			for view := 1; view <= 3; view++ {
 				gi, view := gi, view
 				x.Case(func(c *Case) {
-					e := gridExts(func(n int) []byte { return c.R.Bytes(n) })[gi]
+					var e WExt
+					if gi < nGridExts {
+						e = gridExts(func(n int) []byte { return c.R.Bytes(n) })[gi]
+					} else {
+						e = gridReserved(func(n int) []byte { return c.R.Bytes(n) })[gi-nGridExts]
+					}
 					c.Tag("view=" + formName[view])
 					c.Tag("block=" + formName[e.Form])
 					if view != e.Form {
@@ -761,10 +823,10 @@ func init() {
 				})
 			}
 		}
-		for i, n := 0, x.N(12000, 1000000); i < n; i++ {
+		for i, n := 0, x.N(12000, 400000); i < n; i++ {
 			x.Case(func(c *Case) {
 				form := c.R.Pick(1, 1, 2, 2, 3)
-				e := genExt(c.R, form, 8)
+				e := genExt(c.R, form, 8, true)
 				view := form
 				if c.R.Chance(1, 10) {
 					view = c.R.Range(1, 3)
@@ -779,10 +841,10 @@ func init() {
 		}
 		// malformed blocks (no description): truncations, bit flips, random strings — only the
 		// correspondence (including where the views panic) is checked on these
-		for i, n := 0, x.N(12000, 1000000); i < n; i++ {
+		for i, n := 0, x.N(12000, 400000); i < n; i++ {
 			x.Case(func(c *Case) {
 				form := c.R.Pick(1, 1, 2, 2, 3)
-				e := genExt(c.R, form, 4)
+				e := genExt(c.R, form, 4, true)
 				blk := e.encode()
 				switch c.R.Intn(4) {
 				case 0:
